@@ -63,7 +63,7 @@ func runLambda(t *testing.T, sh lambdaShape, id, tag string) *lambdaCase {
 	hub := newScriptHub(cl)
 	hub.stdin = sh.Stdin
 	pod := "p" + tag
-	cl.AddPod(pod)
+	addPod(cl, pod)
 	nodes := []string{}
 	for _, n := range nodeNames(sh.Nodes) {
 		name := n + tag
